@@ -202,7 +202,7 @@ func (w *World) outcomeString(why string) string {
 		}
 		for _, rec := range n.SavedRecords() {
 			origin := "?"
-			if bi := w.Blocks[fmt.Sprintf("%x", rec.BlockID.Hash)]; bi != nil {
+			if bi := w.blockByID(rec.BlockID); bi != nil {
 				origin = bi.Origin
 			}
 			s += fmt.Sprintf("[%d@r%d %s]", rec.Height, rec.Seen.Round, origin)
